@@ -18,8 +18,12 @@ type verifStubConn struct {
 }
 
 func (c *verifStubConn) Peek(n int) ([]byte, error) { return c.buf, nil }
-func (c *verifStubConn) Discard(n int) (int, error) { c.discarded += n; c.buf = c.buf[n:]; return n, nil }
-func (c *verifStubConn) Fd() int                    { return 7 }
+func (c *verifStubConn) Discard(n int) (int, error) {
+	c.discarded += n
+	c.buf = c.buf[n:]
+	return n, nil
+}
+func (c *verifStubConn) Fd() int { return 7 }
 
 // VerifSetCodecs installs an Engine value carrying client/server codecs with the given limit.
 func VerifSetCodecs(limit int) {
